@@ -33,13 +33,40 @@ def finalise(it, obj, how):
     return it.call_function(r[1], [none, none, none], {}, self_obj=obj)
 
 
+def blocker_summaries(prog):
+    """Block1014 is decided by C04; here its methods only record what the writer asks of it."""
+    summ = {}
+
+    def mk(kind):
+        def s_(it, fi, args, kwargs, node, self_obj):
+            it.seqno += 1
+            it.user.setdefault('sink', []).append((it.seqno, kind, args[0] if args else None, node))
+            return ConstV(None)
+        return s_
+    for name in ('write', 'seek', 'close', 'finalise'):
+        q = f'mciipm.Block1014.{name}'
+        if prog.has_func(q):
+            summ[q] = mk(name)
+    return summ
+
+
+class Eff:
+    def __init__(self, seq, kind, data, node):
+        self.seq, self.kind, self.data, self.node = seq, kind, {'data': data, 'pos': data}, node
+
+
 def file_effects(p, f, since=0):
+    """effects on the writer's sink after `since`: direct file operations, or requests to the 1014 blocker"""
     out = []
     for e in p.events:
         if e.seq <= since:
             continue
         if e.kind in ('write', 'seek', 'close') and e.data['file'] is f:
-            out.append(e)
+            out.append(Eff(e.seq, e.kind, e.data.get('data', e.data.get('pos')), e.node))
+    for seq, kind, arg, node in p.interp.user.get('sink', []):
+        if seq > since:
+            out.append(Eff(seq, 'seek' if kind == 'seek' else kind, arg, node))
+    out.sort(key=lambda x: x.seq)
     return out
 
 
@@ -76,7 +103,7 @@ def check(prog, res, tier):
                     it.user['mark'] = it.seqno
                     finalise(it, obj, how)
                     return obj
-                runs1 = Runs(prog, entry1, res=res)
+                runs1 = Runs(prog, entry1, summaries=blocker_summaries(prog), res=res)
 
                 def chk1(p, mode, bl=bl):
                     if p.outcome != 'return':
@@ -93,10 +120,10 @@ def check(prog, res, tier):
                     elif kinds.index('seek') < len(kinds) - 1 and any(k == 'write' for k in kinds[kinds.index('seek'):]):
                         fails.append(definite('bytes are written after the rewind (they overwrite the start of the file)'))
                     if bl:
-                        pads = [e for e in writes[1:] if isinstance(e.data['data'], SeqV) and e.data['data'].segs
-                                and all(is_pad_seg(g) for g in e.data['data'].segs)]
-                        if not pads:
-                            fails.append(definite('the open 1014 block is not completed after the terminator'))
+                        # the blocker completes the open block when it is asked to seek (C04.d); the terminator must
+                        # have been handed to it before
+                        if 'seek' in kinds and 'write' in kinds and kinds.index('seek') < kinds.index('write'):
+                            fails.append(definite('the 1014 blocker is rewound before the terminator is written'))
                     return fails
                 res.add(runs1.judge(oid, f'{tag}: {title}', func_where(cfi if how == 'close' else xfi),
                                     'self.out_file.write(struct.pack(">I", 0)); self.out_file.seek(0)' if how == 'close' else 'self.close()',
@@ -112,7 +139,7 @@ def check(prog, res, tier):
                     it.user['mark'] = it.seqno
                     finalise(it, obj, h2)
                     return obj
-                runs2 = Runs(prog, entry2, res=res)
+                runs2 = Runs(prog, entry2, summaries=blocker_summaries(prog), res=res)
 
                 def chk2(p, mode):
                     if p.outcome != 'return':
@@ -137,7 +164,7 @@ def check(prog, res, tier):
                 it.user['mark'] = it.seqno
                 finalise(it, obj, 'close')
                 return obj
-            runs3 = Runs(prog, entry3, res=res)
+            runs3 = Runs(prog, entry3, summaries=blocker_summaries(prog), res=res)
 
             def chk3(p, mode):
                 fails = []
